@@ -324,6 +324,7 @@ func (w *regWorld) wait(p *rproc) arrival {
 
 func runRegCase(c *rcase, bindIdx int, out *hx.Out) {
 	w := newRegWorld(c, bindIdx)
+	hx.Current(map[string]any{"case": c, "bind": w.bind})
 	procs := map[int]*rproc{}
 	for i, prog := range c.Progs {
 		p := &rproc{id: i + 1, prog: prog, stage: "idle", start: make(chan startMsg), resume: make(chan int)}
@@ -346,7 +347,6 @@ func runRegCase(c *rcase, bindIdx int, out *hx.Out) {
 		o.Pre = w.readBack()
 		nlog := len(w.log)
 		w.cur = p
-		hx.Current(map[string]any{"case": c, "step": k})
 		if p.stage == "idle" {
 			p.start <- startMsg{op: p.prog[p.idx], fresh: st.Fresh}
 		} else {
